@@ -304,3 +304,42 @@ func runURLCase(col *collector, idx int, u urlCase) {
 
 // plain scheme-less forms: absolute path, relative path, stdout, stderr are
 // part of the Open alphabet (ok-file, relative-file, stdout, stderr).
+
+
+// ---------------------------------------------------------------------------
+// scheme-less paths that merely CLEAN to the special names: only the literal
+// strings "stdout" and "stderr" denote the process streams; "./stdout" or
+// "sub/../stderr" are file paths and exactly that file must be opened. Runs
+// sequentially in the work root (the files live in the current directory).
+func runRelSpecial(col *collector) (evals int) {
+	if err := os.MkdirAll(filepath.Join(workRoot, "relsub"), 0o755); err != nil {
+		toolError("mkdir: %v", err)
+	}
+	cases := []struct{ path, file string }{
+		{"./stdout", "stdout"}, {"./stderr", "stderr"}, {"relsub/../stdout", "stdout"}, {"relsub/../stderr", "stderr"},
+		{"relsub/stdout", "relsub/stdout"}, {"./relsub/./stderr", "relsub/stderr"},
+	}
+	for i, c := range cases {
+		evals++
+		_ = os.Remove(filepath.Join(workRoot, c.file))
+		line := fmt.Sprintf("rel-special-%d\n", i)
+		replay := map[string]any{"part": "open", "index": 900000 + i, "path": c.path}
+		add := func(key, what string) {
+			col.add(partOpen, 900000+i, key, fmt.Sprintf("zap.Open(%q): %s", c.path, what), replay)
+		}
+		ws, closeFn, err := zap.Open(c.path)
+		if err != nil {
+			add("open:relative-special-name:error", "returned "+err.Error()+"; a relative file path must be opened as a file")
+			continue
+		}
+		_, _ = ws.Write([]byte(line))
+		_ = ws.Sync()
+		closeFn()
+		b, rerr := os.ReadFile(filepath.Join(workRoot, c.file))
+		if rerr != nil || string(b) != line {
+			add("open:relative-special-name:file-not-written", fmt.Sprintf("the file %q holds %q (read error %v), want the written line: only the literal names stdout / stderr denote the process streams", c.file, b, rerr))
+		}
+		_ = os.Remove(filepath.Join(workRoot, c.file))
+	}
+	return evals
+}
